@@ -277,6 +277,20 @@ def gen_point_spec(rng, mode, allow_now=True):
     elif r < 0.36 and model.BASE[mode] == "gregorian" and (
             1100 <= w["y"] <= 9900):
         spec["pf"] = {"strf": rng.choice(FALLBACK_STRF), "fallback": True}
+        if rng.random() < 0.3:
+            # the fraction of the second, as the fallback prints it; kept to
+            # fractions that are exact in binary (the fallback truncates
+            # 1e6 * a float)
+            spec["pf"]["strf"] = rng.choice(["%H:%M:%S.%f", "%S.%f %a",
+                                             "%Y-%m-%d %f"])
+            if notation["time"] == "hms_dec":
+                w["us"] = rng.choice([500000, 250000, 750000, 125000, 0])
+                spec["text"] = written_text(notation, w)
+            elif notation["time"] in ("hm_dec", "h_dec"):
+                spec["pf"]["strf"] = "%a %d %b %Y"
+            spec["offsets"] = [rng.choice(DYADIC_OFFSETS) for _ in range(
+                rng.choice([0, 1, 2]))] if "%f" in spec["pf"]["strf"] else (
+                    spec["offsets"])
         if w["rep"] == "week" and rng.random() < 0.6:
             # week dates whose week-year is not their calendar year
             w["w"] = rng.choice([1, model.weeks_in_year(mode, w["y"])])
@@ -287,13 +301,21 @@ def gen_point_spec(rng, mode, allow_now=True):
     return spec
 
 
+DYADIC_OFFSETS = [{"text": "PT0.25S", "us": 250000},
+                  {"text": "-PT0,5S", "us": -500000},
+                  {"text": "PT1.75S", "us": 1750000},
+                  {"text": "PT1M0.125S", "us": 60125000},
+                  {"text": "-P1DT0.5S", "us": -86400500000},
+                  {"text": "PT2S", "us": 2000000}]
+
 PARSE_FORMATS = [("%d/%m/%Y %H:%M:%S", "hms", False),
                  ("%Y%m%d%H", "h", False),
                  ("%Y-%j", None, False),
                  ("%F %X %z", "hms", True),
                  ("%Y%m%dT%H%M%S%z", "hms", True),
                  ("%H:%M %d.%m.%Y", "hm", False),
-                 ("%Y/%j %H", "h", False)]
+                 ("%Y/%j %H", "h", False),
+                 ("%s", "hms", True)]
 
 
 def gen_ctime_spec(rng, spec):
@@ -345,6 +367,28 @@ def gen_pfmt_spec(rng, mode, spec):
     w = gen_written(rng, mode, n, p_invalid=0)
     if w.get("H") == 24:
         w["H"] = 0
+    if fmt == "%s":
+        # a count of seconds since the Unix epoch: an instant, whatever the
+        # local zone; the library holds it in the local zone (UTC with --utc)
+        count = rng.choice([0, 59, 86399, 951782400, 1709251199,
+                            rng.randint(0, 4 * 10 ** 9)])
+        f = cm.civil_fields(mode, count * 10 ** 6, 0)
+        w = dict(f, rep="cal", off=0)
+        spec.update(src="arg", notation=n, written=w, text=str(count),
+                    pfmt=fmt, epoch_count=count)
+        spec["offsets"] = [gen_offset(rng, "hms") for _ in range(
+            rng.choice([0, 1, 1, 2]))]
+        r = rng.random()
+        if r < 0.3:
+            spec["pf"] = {"strf": rng.choice(STRF_FORMATS)}
+        elif r < 0.6:
+            n2 = gen_notation(rng, need_time=True, allow_reduced=False)
+            if n2["zone"] == "hh":
+                n2["zone"] = "hhmm"
+            if n2["time"] in ("hms_dec", "hm_dec", "h_dec"):
+                n2["time"] = "hms"
+            spec["pf"] = {"notation": n2, "text": notation_format(n2)}
+        return spec
     if "%j" in fmt and cm.written_valid(w, mode):
         y, m, d = model.from_ordinal(mode, w["y"], w["doy"])
         w.update(m=m, d=d)
@@ -398,6 +442,10 @@ def gen_invocation(rng, world_state):
     r = rng.random()
     if r < 0.25:
         env["cal"] = rng.choice(model.SPELLINGS)
+        if rng.random() < 0.15:
+            # the variable's value is looked up case-insensitively
+            env["cal"] = rng.choice([env["cal"].upper(),
+                                     env["cal"].capitalize()])
     elif r < 0.28:
         env["cal"] = rng.choice(["", "bogus"])
     cal_opt = rng.choice(model.CLI_CHOICES) if rng.random() < 0.3 else None
@@ -994,9 +1042,13 @@ class Sim(object):
         else:
             in_offs = [w["off"]]
         outs = set()
-        for off_in in in_offs:
-            t_us = cm.written_instant_us(w, mode, off_in)
-            out_off = 0 if utc else off_in
+        if spec.get("epoch_count") is not None:
+            cases = [(spec["epoch_count"] * 10 ** 6, o, None) for o in (
+                [0] if utc else self.local_offsets(before))]
+        else:
+            cases = [(cm.written_instant_us(w, mode, o), 0 if utc else o, o)
+                     for o in in_offs]
+        for t_us, out_off, off_in in cases:
             if nominal is not None:
                 # --utc converts first; the shift happens in the zone and
                 # representation the point is then held in
@@ -1106,7 +1158,7 @@ class Sim(object):
             self.count("probe.env.ref")
         cal_opt = spec.get("cal")
         env_garbage = (not cal_opt and env.get("cal") and
-                       env["cal"] not in model.BASE)
+                       env["cal"].lower() not in model.BASE)
         mode = model.mode_after_operator(cal_opt, env.get("cal"))
         if mode not in model.BASE:
             mode = "gregorian"
